@@ -18,6 +18,7 @@ package memfs
 
 import (
 	"io/fs"
+	"sync"
 
 	"github.com/avfs/avfs"
 	"github.com/avfs/avfs/idm/memidm"
@@ -50,6 +51,7 @@ func NewWithOptions(opts *Options) *MemFS {
 		dirMode:  fs.ModeDir,
 		fileMode: 0,
 		lastId:   new(uint64),
+		renameMu: new(sync.Mutex),
 		name:     opts.Name,
 	}
 
